@@ -579,7 +579,10 @@ def gen_long_list_ops(l, variant, tmpl=V):
         yield Case(hdr, 'mpl::cast', pre + ',to-tuple', 'type', m + 'cast_t<%s, std::tuple>' % L, [lst(l, 'std::tuple')], nt)
     else:
         yield Case(hdr, 'mpl::cast', pre + ',to-vector', 'type', m + 'cast_t<%s, xtl::mpl::vector>' % L, [lst(l, V)], nt)
-    for k in range(0, n + 1):
+    # split<N>: EVERY N for the distinct list (both templates); for the repeated-element variants every N up to
+    # length 40, beyond that N in {0, 1, mid, len-1, len} (the element values do not influence split)
+    ks = range(0, n + 1) if (variant == 'distinct' or n <= 40) else sorted(set([0, 1, mid, n - 1, n]))
+    for k in ks:
         kc = pre + ',' + ('N=0' if k == 0 else 'N=len' if k == n else '0<N<len')
         sp = m + 'split<%d, %s>' % (k, L)
         if tmpl == V:
